@@ -135,7 +135,7 @@ contract(A + "Action.finish", props=["C03", "C02", "C13", "C07"],
                 "ErrorExtraction.get_fields_for_exception#0": [("R1", "R")]},
          requires=[("rep-ok", "rep_ok(self)"), ("current-ok", "cur_ok()"),
                    ("finished-implies-started", "implies(self._finished, self._last_child is not None)")],
-         modifies=LOGGING_FRAME + ["self._finished", "dict(self._successFields)", "field:$dom", "field:$map"],
+         modifies=LOGGING_FRAME + ["self._finished", "dict(self._successFields)"],
          ensures=[("finishing-again-emits-nothing", "implies(old(self._finished), LOG == old(LOG) and pos(self) == old(pos(self)) and self._finished)", ["C03"]),
                   ("marked-finished", "self._finished == True", ["C03"]),
                   ("exactly-one-end-message",
@@ -166,7 +166,7 @@ contract(A + "Action.__exit__", props=["C03", "C02", "C04", "C05", "C07"],
                                    "pos_ok(typed(typed(self._parent_token, 'Token').tok_old, 'Action')))"),
                    ("previous-typed", "typed(self._parent_token, 'Token').tok_old == UNSET or typed(self._parent_token, 'Token').tok_old is None or isinst(typed(self._parent_token, 'Token').tok_old, 'Action', True)"),
                    ("not-finished", "not self._finished")],
-         modifies=LOGGING_FRAME + ["self._finished", "self._parent_token", "#CTX[me]", "field:tok_used", "dict(self._successFields)", "field:$dom", "field:$map"],
+         modifies=LOGGING_FRAME + ["self._finished", "self._parent_token", "#CTX[me]", "field:tok_used", "dict(self._successFields)"],
          ensures=[("context-restored", "CTX[me] == old(typed(self._parent_token, 'Token').tok_old)", ["C04"]),
                   ("other-contexts-untouched", "forall(lambda c: implies(c != me, CTX[c] == old(CTX[c])), 'int')", ["C05"]),
                   ("token-cleared", "self._parent_token is None", ["C04"]),
